@@ -3,7 +3,7 @@
    rotation kernel is an oracle whose optimality is C06; contacts are Model_contact (C05/C14),
    the superposition step is Model_superpose (C13)).  Spec: Spec_rmsd. *)
 From Verif Require Import PyLib ModelTypes Generated_parse Generated_rmsd Model_contact Model_superpose Spec_superpose
-  Model_rmsd Spec_rmsd Proofs_superpose Proofs_rmsd Proofs_contact_c05 Proofs_izone Proofs_rigid_rmsd Proofs_superpose_opt Proofs_rmsd_opt Model_zone Proofs_rmsd_def Proofs_rmsd_def2 Proofs_routes_l Proofs_rmsd_def3.
+  Model_rmsd Spec_rmsd Proofs_superpose Proofs_rmsd Proofs_contact_c05 Proofs_izone Proofs_rigid_rmsd Proofs_superpose_opt Proofs_rmsd_opt Model_zone Proofs_rmsd_def Proofs_rmsd_def2 Proofs_routes_l Proofs_rmsd_def3 Proofs_routes Proofs_rmsd_def4.
 Open Scope Q_scope.
 
 (* the three fixed-column readers of the fast routes read today's wwPDB columns (regenerated) *)
@@ -64,6 +64,31 @@ Theorem C07_lrmsd_fast_is_definition : forall decoy ref c1 c2 names rmat check e
     end.
 Proof. exact lrmsd_fast_is_definition'. Qed.
 Print Assumptions C07_lrmsd_fast_is_definition.
+
+(* THE SQL L-RMSD IS ITS DEFINITION — PARTIAL: proved for structures listing the same atoms in the same order (the SQL route
+   pairs by position when the residues match, by identity in decoy order otherwise; here only the first case is covered), and
+   under the hypothesis that the route picks the long chain the definition names (it counts the selected decoy atoms, the
+   definition the reference chain sizes: known finding F5 is where they differ). What is missing for the full statement:
+   the identity-pairing branch taken when residues differ (reordering of the sums). *)
+Theorem C07_lrmsd_sql_is_definition_partial : forall decoy ref c1 c2 names,
+  aligned decoy ref -> NoDup (map key3_of decoy) -> get_chains ref = [c1; c2] ->
+  Nat.ltb (List.length (sel names decoy c2)) (List.length (sel names decoy c1))
+  = negb (Nat.ltb (List.length (chain_atoms ref c1)) (List.length (chain_atoms ref c2))) ->
+  forall rmat enforce m',
+    lrmsd_sql rmat enforce names decoy ref = Ok m' ->
+    exists fit meas m,
+      lrmsd_pairs_spec names decoy ref = Some (fit, meas) /\
+      msd (superpose_selection rmat (map fst fit) (map snd fit) (map fst meas)) (map snd meas) = Ok m /\ (m == m')%Q.
+Proof. exact lrmsd_sql_is_definition_aligned. Qed.
+Print Assumptions C07_lrmsd_sql_is_definition_partial.
+
+Theorem C07_lrmsd_sql_definition_nonvacuous :
+  aligned decoy_ex ref_ex /\ NoDup (map key3_of decoy_ex) /\ get_chains ref_ex = ["A"; "B"]%string /\
+  Nat.ltb (List.length (sel ["CA"; "C"]%string decoy_ex "B")) (List.length (sel ["CA"; "C"]%string decoy_ex "A"))
+  = negb (Nat.ltb (List.length (chain_atoms ref_ex "A")) (List.length (chain_atoms ref_ex "B"))) /\
+  lrmsd_sql midentity false ["CA"; "C"]%string decoy_ex ref_ex = Ok 1%Q.
+Proof. exact lrmsd_sql_definition_nonvacuous. Qed.
+Print Assumptions C07_lrmsd_sql_definition_nonvacuous.
 
 (* atoms missing from the decoy are left out: the specification's pairs are exactly the reference
    atoms of the selection that have a decoy atom of the same identity *)
